@@ -26,6 +26,7 @@ type Case struct {
 	CLI    bool      `json:"cli,omitempty"`
 	Listed bool      `json:"listed,omitempty"` // also: collect every proposal first, apply / undo them after the enumeration has returned
 	Hist   []ops.Op  `json:"history,omitempty"` // the tree was indexed and then edited in memory by these operations (it stays binary)
+	PreUse bool      `json:"pre_use,omitempty"` // the rearranger object has enumerated a larger tree before
 }
 
 func genCase(t *rapid.T, thorough bool) Case {
@@ -42,6 +43,7 @@ func genCase(t *rapid.T, thorough bool) Case {
 	}
 	c.CLI = cli.Available() && c.Reroot < 0 && len(c.Hist) == 0 && rapid.IntRange(0, 19).Draw(t, "cli") == 0
 	c.Listed = rapid.Bool().Draw(t, "listed")
+	c.PreUse = rapid.IntRange(0, 2).Draw(t, "preuse") == 0
 	return c
 }
 
@@ -137,7 +139,15 @@ func run(c Case) (info, error) {
 	var texts []string
 	var ferr error
 	i := 0
-	(&tree.NNIRearranger{}).Rearrange(t, func(r tree.Rearrangement) bool {
+	// one rearranger object serves several trees, as in `gotree nni` on a multi-tree input: in a
+	// third of the cases it has enumerated a larger tree (16 tips) before
+	rr := &tree.NNIRearranger{}
+	if c.PreUse {
+		if big, perr := gt.Parse("((((pa:1,pb:1):1,(pc:1,pd:1):1):1,((pe:1,pf:1):1,(pg:1,ph:1):1):1):1,(((pi:1,pj:1):1,(pk:1,pl:1):1):1,((pm:1,pn:1):1,(po:1,pp:1):1):1):1,pq:1);"); perr == nil {
+			rr.Rearrange(big, func(r tree.Rearrangement) bool { return true })
+		}
+	}
+	rr.Rearrange(t, func(r tree.Rearrangement) bool {
 		fail := func(format string, a ...any) bool {
 			ferr = fmt.Errorf("proposal %d: %s\n original %s", i, fmt.Sprintf(format, a...), before)
 			return false
@@ -230,7 +240,7 @@ func run(c Case) (info, error) {
 		// a search lists the moves first and tries them afterwards: every proposal handed to the
 		// callback must stay the move it was
 		var kept []tree.Rearrangement
-		(&tree.NNIRearranger{}).Rearrange(t, func(r tree.Rearrangement) bool {
+		rr.Rearrange(t, func(r tree.Rearrangement) bool { // the same object a second time
 			kept = append(kept, r)
 			return true
 		})
